@@ -224,6 +224,30 @@ class Runtime:
                 for i, n in enumerate(model.graph):
                     n.metadata_props["namespace"] = f"root/block{i % 3}/{n.op_type}_{i}"
                     n.metadata_props[("pkg.torch.onnx.class_hierarchy", "pkg.torch.onnx.fx_node", "stack")[i % 3]] = f"v{i}"
+            if m.get("retype"):
+                # the same model in another floating-point precision (an fp16 / bf16 / double export of the same network):
+                # every FLOAT value and initializer is re-typed
+                import ml_dtypes
+                import numpy as np
+
+                new = ir.DataType[m["retype"]]
+                npdt = {"FLOAT16": np.float16, "DOUBLE": np.float64, "BFLOAT16": ml_dtypes.bfloat16}[m["retype"]]
+
+                def retype_graph(g):
+                    for v in list(g.inputs) + list(g.outputs) + [o for n in g for o in n.outputs] + list(g.initializers.values()):
+                        if v.dtype == ir.DataType.FLOAT:
+                            v.dtype = new
+                        t = v.const_value
+                        if t is not None and t.dtype == ir.DataType.FLOAT:
+                            v.const_value = ir.tensor(t.numpy().astype(npdt), dtype=new, name=t.name)
+                    for n in g:
+                        for a in n.attributes.values():
+                            if a.type == ir.AttributeType.GRAPH:
+                                retype_graph(a.value)
+                            elif a.type == ir.AttributeType.TENSOR and a.value.dtype == ir.DataType.FLOAT:
+                                n.attributes[a.name] = ir.AttrTensor(a.name, ir.tensor(a.value.numpy().astype(npdt), dtype=new, name=a.value.name))
+
+                retype_graph(model.graph)
             ext = m.get("external")
             scratch = os.environ.get("DSIM_SCRATCH")
             if ext and scratch:
